@@ -549,3 +549,73 @@ collect_attrs = FunctionContract(
             ("for mol_idx in mol_idxs:", "for mol_idx in mol_idxs[1:]:")],
 )
 CONTRACTS.append(collect_attrs)
+
+
+# ------------------------------------------------------------------ do_mapping: warnings about atoms that several particles claim
+WAtom = TKey('WAtom')
+
+
+def setup_warn(cx):
+    from pyvc.builtins import list_append
+    eng = cx.eng
+    OVER = cx.val('overlapping_mappings', TSet(WAtom))
+    ATOMS = cx.val('MAPPED', TSeq(WAtom))                   # the keys of mol_to_out, in order
+    cx.spec_env.update(OVER=OVER, MAPPED=ATOMS)
+    n_real = cx.uf('n_particles', [WAtom], TInt)            # len(mol_to_out[atom].keys() - none_to_one_mappings)
+    connected = cx.uf('connected', [WAtom], TBool)          # networkx.is_connected(graph_out.subgraph(those particles))
+    WARNED = cx.heap('WARNED', cx.box('WARNED', TSeq(TStr)))
+    cx.spec_env['LOGGER'] = Obj('LOGGER', warning=Builtin(lambda e, *a, type=None, **k: list_append(e, WARNED, type), 'LOGGER.warning'))
+    cx.spec_env['format_atom_string'] = Builtin(lambda e, n, **k: 'atom', 'format_atom_string')
+    # the texts of the messages are not modelled
+    for src in ("{format_atom_string(molecule.nodes[mol_idx]) for mol_idx in overlapping_mappings}",
+                "{format_atom_string(graph_out.nodes[out_idx], atomid='') for mol_idx in overlapping_mappings for out_idx in mol_to_out[mol_idx]}",
+                "{format_atom_string(graph_out.nodes[out_idx], atomid='') for out_idx in out_idxs}"):
+        eng.opaque_exprs[src] = lambda e: Obj('names')
+
+    def particles_of(e, a):
+        ae = to_z3(a, WAtom)
+        ks = Obj('keys')
+        out = Obj('out_idxs', __len__=Builtin(lambda e2: SV(TInt, n_real(ae)), 'len(out_idxs)'))
+        out.__dict__['atom'] = ae
+        ks.attrs['__sub__'] = Builtin(lambda e2, other: out if other is none_to_one else (_ for _ in ()).throw(EngineError('keys - x')), '-')
+        return Obj('particles', keys=Builtin(lambda e2: ks, 'keys'))
+    none_to_one = Obj('none_to_one_mappings')
+    m2o = Obj('mol_to_out', __getitem__=Builtin(particles_of, 'mol_to_out[]'))
+    m2o.__dict__['iter'] = ATOMS
+    graph_out = Obj('graph_out', subgraph=Builtin(lambda e, out: out, 'graph_out.subgraph'),
+                    nodes=Obj('NodeView', __getitem__=Builtin(lambda e, k: Obj('node'), 'graph_out.nodes[]')))
+    cx.spec_env['nx'] = Obj('networkx', is_connected=Builtin(lambda e, g: wrap(TBool, connected(g.__dict__['atom'])), 'networkx.is_connected'))
+    molecule = Obj('Molecule', nodes=Obj('NodeView', __getitem__=Builtin(lambda e, k: Obj('node'), 'molecule.nodes[]')))
+    return dict(overlapping_mappings=OVER, mol_to_out=m2o, none_to_one_mappings=none_to_one, graph_out=graph_out, molecule=molecule)
+
+
+SPEC_WARN = {
+    # the atom goes into several real particles that are not connected to each other
+    'torn': "lambda i: n_particles(MAPPED[i]) > 1 and not connected(MAPPED[i])",
+    'base': "lambda: 1 if exists(lambda a: a in OVER, WAtom) else 0",
+}
+WARN_INV = [
+    "len(g_src) == len(WARNED) - base()",
+    "forall(lambda q: implies(0 <= q and q < len(g_src), 0 <= g_src[q] and g_src[q] < {I} and torn(g_src[q])))",
+    "forall(lambda p, q: implies(0 <= p and p < q and q < len(g_src), g_src[p] < g_src[q]))",
+    "forall(lambda i: implies(0 <= i and i < {I} and torn(i), i in g_pos and 0 <= g_pos[i] and g_pos[i] < len(g_src) and g_src[g_pos[i]] == i))",
+    "forall(lambda q: implies(0 <= q and q < len(WARNED), WARNED[q] == 'inconsistent-data'))",
+]
+mapping_warnings = FunctionContract(
+    F, 'do_mapping', 'C01', short='do_mapping[atoms claimed by several particles]', setup=setup_warn, spec_defs=SPEC_WARN,
+    spec_env=dict(WAtom=WAtom),
+    region=dict(start="if overlapping_mappings:", end="uncovered_atoms = set(molecule.nodes.keys()) - set(mol_to_out.keys())"),
+    locals=dict(g_src=TSeq(TInt), g_pos=TMap(TInt, TInt)), ghost_at={'entry': "g_src = []\ng_pos = {}"},
+    requires=["len(old(WARNED)) == 0"],
+    # one inconsistent-data warning when atoms are covered by several blocks, and one for every atom that goes into several
+    # real (not none-to-one) particles that are not connected - each once, in order; nothing else
+    ensures=[x.format(I='len(MAPPED)') for x in WARN_INV],
+    modifies=['WARNED'],
+    loops={'L1': LoopSpec(inv=[x.format(I='_i') for x in WARN_INV], modifies=['WARNED', 'g_src', 'g_pos'],
+                          locals=dict(g_n0=TInt), ghost_pre="g_n0 = len(WARNED)",
+                          ghost_end="if len(WARNED) > g_n0:\n    g_src.append(_i)\n    g_pos[_i] = len(g_src) - 1")},
+    canary=[("if len(out_idxs) > 1 and not nx.is_connected(graph_out.subgraph(out_idxs)):", "if len(out_idxs) > 1 and nx.is_connected(graph_out.subgraph(out_idxs)):"),
+            ("if overlapping_mappings:", "if not overlapping_mappings:"),
+            ("if len(out_idxs) > 1 and", "if len(out_idxs) > 2 and")],
+)
+CONTRACTS.append(mapping_warnings)
